@@ -368,20 +368,20 @@ def r12_4(prog, rep, snap):
 
 def run(prog, rep, tier, snap):
     rep.rule("R12.1", "every real run is counted: uncounted spawn implies no-run (guard implication)", 1)
-    r12_1(prog, rep)
+    rep.call(r12_1, prog, rep)
     rep.rule("R12.2", "nsim increment/decrement pairing through the child watcher", 5)
-    r12_2(prog, rep)
+    rep.call(r12_2, prog, rep)
     rep.rule("R12.3", "no function-local static state leaks between calls (definite assignment before use)", 2)
     files = (DAEMON,) if tier == "quick" else (DAEMON, "echsx.c", "echsq.c", "evical.c")
-    r12_3(prog, rep, files)
+    rep.call(r12_3, prog, rep, files)
     rep.rule("R12.4", "no-run flag agrees with the executor's options and bypasses the spawn", 5)
-    r12_4(prog, rep, snap)
+    rep.call(r12_4, prog, rep, snap)
     from ..rules import watch
     rep.rule("R12.5", "child watchers whose callback means 'terminated' are registered for termination only", 1)
-    watch.child_watchers(prog, rep, "R12.5", "echsd.c")
+    rep.call(watch.child_watchers, prog, rep, "R12.5", "echsd.c")
     from ..rules import spawn
     rep.rule("R12.6", "a failed posix_spawn (positive error number) is not taken for a started process", 1)
-    spawn.spawn_results(prog, rep, "R12.6", "echsd.c", 1)
+    rep.call(spawn.spawn_results, prog, rep, "R12.6", "echsd.c", 1)
     from ..rules import encodings
     rep.rule("R05.4", "MAX-SIMUL sentinel encoding round-trips over the whole field domain (shared with C05)", 1)
     encodings.r05_4(prog, rep, which=("max_simul",))
